@@ -493,7 +493,9 @@ class PCDeployerJob(DeployerJob):
                 cmds_pre_files[file] = "\n".join(map(str, chain(before, before_more))).encode(encoding="utf-8")
                 after_cmds = "\n".join(map(str, chain(after, after_more))).encode(encoding="utf-8")
                 if after_cmds:
-                    self.deploy_cmds[device]["cmds"][file] += b"\n" + after_cmds
+                    # with --entire-reload=no the file has no reload command to append to
+                    file_cmds = self.deploy_cmds[device]["cmds"]
+                    file_cmds[file] = (file_cmds[file] + b"\n" if file in file_cmds else b"") + after_cmds
             self.deploy_cmds[device]["cmds_pre_files"] = cmds_pre_files
 
 
